@@ -43,6 +43,47 @@ T = {
  'C19-2': ('SRC/get_perm_c.c', 'free of b_colptr moved into the bnz != 0 branch', 'MMD ordering of a matrix with empty adjacency structure (diagonal)'),
  'C20-1': ('FORTRAN/c_fortran_zgssv.c', 'dense B created with leading dimension *n instead of *ldb', 'nrhs >= 2 and ldb > n through the z bridge'),
  'C20-2': ('SRC/util.c', 'Destroy_SuperNode_Matrix no longer frees col_to_sup', 'any factor / free cycle, visible only to a leak checker'),
+ # ---- round 2: shared files or the same edit in all four arithmetic variants (the sibling rule is blind)
+ 'C01-3': ('SRC/?panel_bmod.c (x4)', 'final scatter of the 2-D blocked update skips segsze < 3 instead of <= 3: a solved segment of length 3 is overwritten with zeros', 'supernode >= 100 columns with > 200 rows below it and a U-segment of length exactly 3 (default sp_ienv)'),
+ 'C01-4': ('SRC/memory.c', 'copy_mem_int uses memmove with the element count as byte count', 'expansion of lsub/usub under library allocation (fill above the estimate)'),
+ 'C02-3': ('SRC/memory.c', 'SetIWork fills repfnz over n*panel_size instead of m*panel_size entries', 'tall matrix (m > n) handed to ?gstrf'),
+ 'C02-4': ('SRC/?gstrf.c (x4)', 'relaxed-supernode call of ?pivotL receives perm_c instead of iperm_c', 'DiagPivotThresh < 1, non-involutory column permutation, column inside a relaxed supernode'),
+ 'C03-3': ('SRC/?gstrf.c (x4)', 'perm_r completion loop runs over i < n instead of i < m', 'tall matrix, info = 0'),
+ 'C03-4': ('SRC/ilu_?drop_row.c (x4)', 'secondary dropping moves the subscript from slot m-1 instead of m1', 'ILU with DROP_SECONDARY and a tight fill quota (>= 2 rows dropped in one supernode)'),
+ 'C04-3': ('SRC/?pivotL.c (x4)', 'pivmax initialised to -1.0: an empty candidate set is no longer seen as a zero pivot', 'structurally deficient column (no stored candidate)'),
+ 'C04-4': ('SRC/?gstrf.c (x4)', 'relaxed-supernode branch overwrites the remembered first singular column', '>= 2 deficient columns, a later one inside a relaxed supernode'),
+ 'C05-3': ('SRC/?gssvx.c (x4)', 'row-storage branch keeps trant = NOTRANS but no longer sets notran', 'SLU_NR storage, Trans != NOTRANS, equilibration applied'),
+ 'C05-4': ('SRC/?panel_bmod.c (x4)', '2-D update offsets the block-row product by nsupc*no_zeros instead of nsupr*no_zeros', 'wide supernode (>= 100 x > 200) and a U-segment that starts inside it'),
+ 'C06-3': ('SRC/?memory.c (x4)', '?LUWorkFree resets top2 before subtracting the tail from used', 'caller workspace and a later re-factorization in the same buffer'),
+ 'C06-4': ('SRC/?memory.c (x4)', '?LUMemInit reuse branch restores nzumax from Glu->nzlumax', 'SamePattern_SameRowPerm with different L/U capacities'),
+ 'C07-3': ('SRC/?memory.c (x4)', '?expand no longer advances top1 for the USUB share of a UCOL expansion', 'caller workspace with a UCOL expansion'),
+ 'C07-4': ('SRC/?gstrf.c (x4)', 'read of Glu->nzlumax hoisted out of the relaxed-supernode branch (stale after ?column_bmod expanded lusup)', 'an expansion of lusup by a panel column followed by a relaxed supernode that needs one'),
+ 'C08-3': ('SRC/?memory.c (x4)', '?expand computes the bytes to shift from stack.used instead of stack.top1', 'caller workspace nearly exhausted, mid-factorization expansion'),
+ 'C08-4': ('SRC/?memory.c (x4)', 'usable workspace rounded up ((lwork+3)/4*4) instead of down', 'lwork not a multiple of 4'),
+ 'C09-3': ('FORTRAN/c_fortran_?gssv.c (x4)', 'bridge shifts the shared 1-based index arrays in place and back instead of copying them', 'two threads factoring through the bridge with shared rowind/colptr'),
+ 'C09-4': ('SRC/?lacon2.c (x4)', 'isave[2] (iteration counter) never initialised', 'condition / error estimate whose Hager iteration has not converged at the first L110 test'),
+ 'C10-3': ('SRC/mmd.c', 'dhead[1] = 0 after the isolated-vertex loop dropped', 'MMD ordering of a graph with isolated vertices and a vertex that drops to degree 1'),
+ 'C10-4': ('SRC/get_perm_c.c', 'dhead/qsize (int_t) allocated with sizeof(int)', '64-bit index build with an MMD ordering'),
+ 'C11-3': ('SRC/?laqgs.c (x4)', 'LARGE threshold written as 1/sfmin/prec: overflows to +inf, so a huge amax no longer triggers row scaling', 'amax above 1/(sfmin/prec) with acceptable rowcnd/colcnd'),
+ 'C11-4': ('SRC/?gsequ.c (x4)', 'zero-row report no longer returns: the column pass runs on and overwrites info', 'matrix with an all-zero row'),
+ 'C12-3': ('SRC/?sp_blas2.c (x4)', 'sp_?trsv (L, N) no longer clears the gemv scratch vector between supernodes (beta = 1)', 'ConditionNumber = YES, >= 2 multi-column supernodes with rows below'),
+ 'C12-4': ('SRC/?gssvx.c (x4)', 'info = n+1 warning moved inside the nrhs > 0 block', 'ConditionNumber = YES with nrhs = 0'),
+ 'C13-3': ('SRC/?gsrfs.c (x4)', '`else if (rwork[i] != 0.0)` became a plain else: division by an exactly-zero denominator', 'a row with |op(A)||x|+|b| = 0'),
+ 'C13-4': ('SRC/?gssvx.c (x4)', 'refinement runs only for IterRefine == SLU_DOUBLE / SLU_SINGLE', 'IterRefine = SLU_EXTRA (or the other accepted value)'),
+ 'C14-3': ('SRC/?sp_blas2.c (x4)', 'sp_?gemv (N) advances jx only when x(j) != 0', 'x with an exact zero'),
+ 'C14-4': ('SRC/?myblas2.c (x4)', '?lsolve 2-column tail starts its second column pointer on the diagonal', 'bundled kernels (no vendor BLAS), supernode width 3 mod 4'),
+ 'C15-3': ('SRC/ilu_?pivotL.c (x4)', 'pivot bookkeeping reads swap[] where iswap[] is meant', 'ILU with off-diagonal pivots and an L column emptied by dropping'),
+ 'C15-4': ('SRC/?gsisx.c (x4)', 'pivot-growth early exit folded into the lwork == -1 return, before the MC64 relabel is undone', 'MC64, PivotGrowth = YES, 0 < info <= n'),
+ 'C16-3': ('SRC/?readhb.c, ?readrb.c', 'D -> E exponent rewrite addresses buf[k] instead of buf[s+k]', 'values with a D exponent in a field other than the first of a line'),
+ 'C16-4': ('SRC/?readMM.c (x4)', 'comment skipping tests line[0] instead of banner[0]', 'blank line between the comments and the size line'),
+ 'C17-3': ('SRC/mc64ad.c', '++num moved above the csp == rinf test in mc64wd_', 'structurally singular matrix'),
+ 'C17-4': ('SRC/mc64ad.c', 'heap sift-down of mc64ed_ stops when posk >= qlen', 'n >= 5 and three or more rows with distinct distances in the heap'),
+ 'C18-3': ('SRC/?gssvx.c, ?gsisx.c (x8)', 'screening of the supplied row scale factors tests rcmax <= 0 instead of rcmin <= 0', 'Fact = FACTORED, equed R or B, R with one non-positive entry'),
+ 'C18-4': ('SRC/?gsequ.c (x4)', 'storage-tag screening of ?gsequ also lets SLU_NR through', 'direct call of ?gsequ with a row-compressed matrix'),
+ 'C19-3': ('SRC/get_perm_c.c', 'getata allocates marker[] with n+1 instead of max(m,n)+1 entries', 'MMD_ATA on a tall matrix'),
+ 'C19-4': ('SRC/?gstrf.c (x4)', 'iperm_r freed under `if (usepr)` although ?pivotL may clear usepr', 'SamePattern_SameRowPerm with values that make an old pivot unacceptable'),
+ 'C20-3': ('FORTRAN/c_fortran_?gssv.c (x4)', 'StatInit hoisted above the iopt dispatch: a free request allocates statistics it never releases', 'any factor / free cycle'),
+ 'C20-4': ('SRC/?panel_bmod.c (x4)', 'MatvecTmp = &TriTmp[colblk] instead of [maxsuper]', 'default sp_ienv (colblk 100 < maxsuper 200) and a segment longer than 100'),
 }
 mx = {}
 if len(sys.argv) > 1 and os.path.exists(sys.argv[1]):
